@@ -233,6 +233,88 @@ def nontrivial(sig):
     return any(s != 'set' and (s[3] >= 2 or s[1] == 'W' or s[2] != 'hit' or s[4]) for s in sig)
 
 
+def stage_real_classes(ctx):
+    """C04 on the real spawn classes, in the states where Expecter.eof() / timeout() build their diagnostic message from
+    str(spawn): the raised class is exactly TIMEOUT / EOF, a listed marker gives its index with before = pending text and
+    after = the class, EOF is reported again (at once) by every later call, and str(spawn) itself never fails"""
+    import os, socket, time as rt
+    import pexpect
+    from pexpect import pxssh, fdpexpect, popen_spawn, socket_pexpect, EOF, TIMEOUT
+    n = 0
+
+    def judge(label, p, conv):
+        problems = []
+
+        def call(what, fn, want_exc=None, want_ret=None, limit=3.0):
+            t0 = rt.time()
+            try:
+                r = fn(); got = ('ret', r)
+            except BaseException as e:      # noqa
+                got = ('exc', type(e))
+                try:
+                    str(e)
+                except Exception as e2:   # noqa
+                    problems.append('%s: str(exception) raised %s' % (what, type(e2).__name__))
+            if want_exc is not None and got != ('exc', want_exc):
+                problems.append('%s: %s, expected %s to be raised' % (what, got, want_exc.__name__))
+            if want_ret is not None and got != ('ret', want_ret):
+                problems.append('%s: %s, expected index %r' % (what, got, want_ret))
+            if rt.time() - t0 > limit:
+                problems.append('%s took %.1f s' % (what, rt.time() - t0))
+        for name in ('before-eof', 'after-eof'):
+            try:
+                str(p); repr(p)
+            except Exception as e:    # noqa
+                problems.append('str(spawn) raised %s (%s)' % (type(e).__name__, name))
+            if name == 'before-eof':
+                call('expect timeout', lambda: p.expect(conv('zz'), timeout=0.05), want_exc=TIMEOUT)
+                call('expect_exact timeout', lambda: p.expect_exact([conv('zz'), conv('y')], timeout=0), want_exc=TIMEOUT)
+                call('timeout listed', lambda: p.expect([conv('zz'), TIMEOUT], timeout=0.05), want_ret=1)
+                if p.after is not TIMEOUT:
+                    problems.append('after a TIMEOUT index, after is %r' % (p.after,))
+                yield_eof = True
+                p._verif_end()
+            else:
+                call('expect eof', lambda: p.expect(conv('zz'), timeout=2), want_exc=EOF)
+                call('expect eof again', lambda: p.expect_exact(conv('zz'), timeout=2), want_exc=EOF, limit=1.0)
+                call('eof listed', lambda: p.expect([conv('zz'), TIMEOUT, EOF], timeout=2), want_ret=2, limit=1.0)
+                if p.after is not EOF or p.before not in (conv(''),):
+                    problems.append('after an EOF index: after %r before %r' % (p.after, p.before))
+                call('read at eof', lambda: p.read(), want_ret=conv(''), limit=1.0)
+                call('readline at eof', lambda: p.readline(), want_ret=conv(''), limit=1.0)
+        return problems
+    for enc in (None, 'utf-8'):
+        conv = (lambda t: t) if enc else (lambda t: t.encode())
+        objs = []
+        p = pexpect.spawn('cat', encoding=enc, timeout=2, echo=False); p._verif_end = p.sendeof; objs.append(('pty', p, lambda p=p: p.close(force=True)))
+        s = pxssh.pxssh(encoding=enc, timeout=2); pexpect.spawn._spawn(s, 'cat'); s.setecho(False); s._verif_end = s.sendeof; objs.append(('pxssh', s, lambda s=s: s.close(force=True)))
+        r, w = os.pipe(); f = fdpexpect.fdspawn(r, encoding=enc, timeout=2); f._verif_end = (lambda w=w: os.close(w)); objs.append(('fdspawn', f, lambda f=f: f.close()))
+        a, b = socket.socketpair(); k = socket_pexpect.SocketSpawn(a, encoding=enc, timeout=2); k._verif_end = b.close; objs.append(('SocketSpawn', k, lambda k=k: k.close()))
+        q = popen_spawn.PopenSpawn(['cat'], encoding=enc, timeout=2); q._verif_end = q.sendeof; objs.append(('PopenSpawn', q, lambda q=q: (q.proc.stdout.close(), q.proc.wait())))
+        for label, obj, fin in objs:
+            try:
+                problems = judge(label, obj, conv)
+            finally:
+                try:
+                    fin()
+                except Exception:
+                    pass
+            try:
+                str(obj)
+            except Exception as e:  # noqa
+                problems.append('str(spawn) after close raised %s' % type(e).__name__)
+            n += 1
+            if problems:
+                common.report(ctx, 'classes/%s/%s' % (label, 'unicode' if enc else 'bytes'), '%s (%s mode): %s' % (label, 'unicode' if enc else 'bytes', '; '.join(problems[:4])),
+                              dict(stage='stage_real_classes', cls=label, encoding=enc, problems=problems))
+    # an object that was never started: str() must still work (pxssh before login)
+    try:
+        str(pxssh.pxssh()); str(pexpect.spawn(None))
+    except Exception as e:  # noqa
+        common.report(ctx, 'classes/unstarted/str', 'str() of a spawn object without a child raised %s' % type(e).__name__, dict(stage='stage_real_classes'))
+    ctx.cov['real_class_states'] = n
+
+
 def run(ctx):
     prop = ctx.prop
     common.prove(ctx, MODULES[prop])
@@ -297,6 +379,8 @@ def run(ctx):
     if model_naive_fail and not first_oracle_fail and not first_corr_fail:
         c, res = model_naive_fail
         ctx.broken.append('Lean model disagrees with the naive oracle on %s' % json.dumps(c)[:300])
+    if prop == 'C04':
+        stage_real_classes(ctx)
     distinct = sum(1 for s in sigs if nontrivial(s))
     ctx.cov['outcome_histogram'] = dict(kinds)
     ctx.cov['corpus_cases'] = ncorpus
